@@ -21,27 +21,27 @@ var c06Commands = []struct {
 	src     string
 	replace bool
 }{
-	{"replace all 'ab' with 'X'", true},                                   // shorter
-	{"replace all 'ab' with '<<' value '>>' matchNumber", true},           // longer
-	{"replace all 'ab' with ''", true},                                    // empty replacement
-	{"replace all 'zzzzzz' with 'never'", true},                           // zero matches
-	{"replace all at least 1 'a' with '[' value ']'", true},               // adjacent / variable length
-	{"replace top 2 'b' with 'B'", true},                                  // only some matches
-	{"replace last 1 letter with '!'", true},                              // match near EOF
-	{"replace all file start any with 'S'", true},                         // match at offset 0
-	{"replace all any file end with 'E'", true},                           // match at EOF
-	{"replace all (digit = d) with d d", true},                            // captures
+	{"replace all 'ab' with 'X'", true},                         // shorter
+	{"replace all 'ab' with '<<' value '>>' matchNumber", true}, // longer
+	{"replace all 'ab' with ''", true},                          // empty replacement
+	{"replace all 'zzzzzz' with 'never'", true},                 // zero matches
+	{"replace all at least 1 'a' with '[' value ']'", true},     // adjacent / variable length
+	{"replace top 2 'b' with 'B'", true},                        // only some matches
+	{"replace last 1 letter with '!'", true},                    // match near EOF
+	{"replace all file start any with 'S'", true},               // match at offset 0
+	{"replace all any file end with 'E'", true},                 // match at EOF
+	{"replace all (digit = d) with d d", true},                  // captures
 	{"set f to transform return matchLength end\nreplace all at least 1 letter with f", true},
-	{"replace all 'a' with 'b'\nreplace all 'b' with 'c'", true},          // two commands on the same files
-	{"replace all 'ab' with 'ab'", true},                                  // replacement identical to the match
-	{"replace all (at least 1 digit) = d with d", true},                   // identical through a capture
-	{"replace all caseless 'ab' with 'ab'", true},                         // identical for some matches only
-	{"replace all 'b' with 'b' 'b'", true},                                // identical prefix, then longer
-	{"replace all 'ab' with neverBoundName", true},                      // a with-list that yields no value at all: the match is deleted
-	{"replace all 'a' or ('b' = v) with v", true},                         // bound for some matches only
-	{"replace all at least 1 ('b' = v) named grp with grp", true},         // a map-valued name contributes nothing
-	{"replace all 'b' (maybe (digit = d)) with d", true},                  // capture inside a skipped optional
-	{"replace all at least 1 'b' with 'XX'", true},                       // runs of 1, 2, 3: longer, same, shorter - changes that can sum to zero
+	{"replace all 'a' with 'b'\nreplace all 'b' with 'c'", true},  // two commands on the same files
+	{"replace all 'ab' with 'ab'", true},                          // replacement identical to the match
+	{"replace all (at least 1 digit) = d with d", true},           // identical through a capture
+	{"replace all caseless 'ab' with 'ab'", true},                 // identical for some matches only
+	{"replace all 'b' with 'b' 'b'", true},                        // identical prefix, then longer
+	{"replace all 'ab' with neverBoundName", true},                // a with-list that yields no value at all: the match is deleted
+	{"replace all 'a' or ('b' = v) with v", true},                 // bound for some matches only
+	{"replace all at least 1 ('b' = v) named grp with grp", true}, // a map-valued name contributes nothing
+	{"replace all 'b' (maybe (digit = d)) with d", true},          // capture inside a skipped optional
+	{"replace all at least 1 'b' with 'XX'", true},                // runs of 1, 2, 3: longer, same, shorter - changes that can sum to zero
 	{"find all 'ab'", false},
 	{"find all at least 1 letter", false},
 }
@@ -189,7 +189,7 @@ func C06(r *drv.Run) {
 		n = 9000
 		ncli = 250
 	}
-	r.Rule = fmt.Sprint("RunFiles on scratch directories: ", len(c06Commands), " commands") + " (replacement shorter / longer / empty / identical to the matched text, a with-list of names that are unbound for all or some matches or map-valued (no value: the match is deleted), zero matches, adjacent matches, match at offset 0 and at EOF, captures, a transform, two commands over the same files, find commands) x 1..2 files of sizes 0, 1, 7, 40, 200, 4095..4097, 8191, 8193, 10 000 x {NOTHING, NEW, OVERWRITE}, plus large files (up to ~400 KB) whose unmatched stretches before, between and after 1..3 matches are exactly 16384 / 32768 / 65536 / 131072 bytes or one byte off, and files named through a symbolic link to a directory elsewhere followed by `..` (a decoy of the same size sits at the lexically cleaned place), with stale longer .vored files and bystander files present. Oracle: directory snapshot (type, size, mode, SHA-256, inode) before/after must differ by exactly the change set the mode allows, and the written text must equal the splice of the original bytes with the replacements of the in-memory run at its spans; every file the library opens for writing (hook H5) must be in the allowed set. Sessions: 3..6 steps in ONE worker process over the same two paths - a file is rewritten between steps (often with different bytes of the SAME size), then one or two literal replace commands run in a random mode; the expected content of every file after every step comes from a harness-side model (sequential ReplaceAll for OVERWRITE, last command on the unchanged source for NEW), so nothing remembered from an earlier call or command may leak into a later one. Thorough tier additionally drives the built CLI under strace and checks every path opened for writing/creating/truncating, renamed, unlinked or truncated. Non-trivial = a replace run with >= 1 match in mode NEW or OVERWRITE whose output was verified; distinct by (command, layout, mode)."
+	r.Rule = fmt.Sprint("RunFiles on scratch directories: ", len(c06Commands), " commands") + " (replacement shorter / longer / empty / identical to the matched text, a with-list of names that are unbound for all or some matches or map-valued (no value: the match is deleted), zero matches, adjacent matches, match at offset 0 and at EOF, captures, a transform, two commands over the same files, find commands) x 1..2 files of sizes 0, 1, 7, 40, 200, 4095..4097, 8191, 8193, 10 000 x {NOTHING, NEW, OVERWRITE}, plus large files (up to ~400 KB) whose unmatched stretches before, between and after 1..3 matches are exactly 16384 / 32768 / 65536 / 131072 bytes or one byte off, and files named through a symbolic link to a directory elsewhere followed by `..` (a decoy of the same size sits at the lexically cleaned place), with stale longer .vored files and bystander files present. Oracle: directory snapshot (type, size, mode, SHA-256, inode) before/after must differ by exactly the change set the mode allows, and the written text must equal the splice of the original bytes with the replacements of the in-memory run at its spans; every file the library opens for writing (hook H5) must be in the allowed set. Sessions: 3..6 steps in ONE worker process over the same two paths - a file is rewritten between steps (often with different bytes of the SAME size), then one or two literal replace commands run in a random mode; the expected content of every file after every step comes from a harness-side model (sequential ReplaceAll for OVERWRITE, last command on the unchanged source for NEW), so nothing remembered from an earlier call or command may leak into a later one. Failing calls: a replace whose transform divides by zero on a match of the second (or first, or only) file - after the call every file is either untouched or holds exactly the splice of a file whose replacements all exist; the file whose replacement could not be computed, and its stale .vored, are untouched (the panic itself is known finding K1 and not judged here). Thorough tier additionally drives the built CLI under strace and checks every path opened for writing/creating/truncating, renamed, unlinked or truncated. Non-trivial = a replace run with >= 1 match in mode NEW or OVERWRITE whose output was verified; distinct by (command, layout, mode)."
 	r.Assumptions = []string{
 		"the spans and replacements spliced are those of Run on the same bytes (C01/C05/C07 judge those)",
 		"with two replace commands in one source each command rewrites from the file as the previous command left it (OVERWRITE) or from the unchanged source (NEW): the expected text is computed accordingly",
@@ -237,12 +237,13 @@ func C06(r *drv.Run) {
 			c06Check(r, l, cmd.src, cmd.replace, mode, &c, res, i)
 		}}
 	})
+	c06Failing(r)
 	c06Sessions(r, n/5)
 	if ncli > 0 {
 		c06CLI(r, ncli)
 	}
 	if r.NViolations() == 0 {
-		for _, k := range []string{"verified_NEW", "verified_OVERWRITE", "verified_NOTHING", "verified_find", "stale_vored_replaced", "write_opens_checked", "session_steps_verified", "session_same_size_rewrites", "session_multi_command_overwrite_steps", "verified_large_file_outputs"} {
+		for _, k := range []string{"verified_NEW", "verified_OVERWRITE", "verified_NOTHING", "verified_find", "stale_vored_replaced", "write_opens_checked", "session_steps_verified", "session_same_size_rewrites", "session_multi_command_overwrite_steps", "verified_large_file_outputs", "failed_calls_whose_files_were_inspected"} {
 			if r.Counter(k) == 0 {
 				r.Inconclusive("coverage floor: " + k + " = 0")
 			}
@@ -630,6 +631,86 @@ func c06Sessions(r *drv.Run, n int) {
 			if i%17 == 0 {
 				r.Sample(map[string]any{"session_steps": len(steps), "first_program": string(steps[0].Src), "first_mode": steps[0].Mode})
 			}
+		}}
+	})
+}
+
+// c06Failing: a call that fails while computing a replacement writes nothing that is not a complete splice.
+func c06Failing(r *drv.Run) {
+	src := "set t1 to transform return 100 / (match - 0) end\nreplace all at least 1 digit with '<' t1 '>'"
+	good := []byte("a 5 b 2\nlast 10")
+	goodOut := []byte("a <20> b <50>\nlast <10>")
+	bad := [][]byte{[]byte("x 4 y 0 z 5\n"), []byte("0"), []byte("7 7 7 7 0"), append(bytes.Repeat([]byte("q 1 "), 1200), '0')}
+	type job struct {
+		order int // 0: good, bad   1: bad, good   2: bad alone
+		bad   int
+		mode  string
+		stale bool
+	}
+	var jobs []job
+	for order := 0; order < 3; order++ {
+		for b := range bad {
+			for _, mode := range []string{"NEW", "OVERWRITE", "NOTHING"} {
+				for _, st := range []bool{false, true} {
+					jobs = append(jobs, job{order, b, mode, st})
+				}
+			}
+		}
+	}
+	r.Exec(len(jobs), drv.ExecOpts{Batch: 6}, func(i int) *drv.Item {
+		jb := jobs[i]
+		dir := filepath.Join(r.WorkDir, "c06fail", fmt.Sprint(i))
+		os.MkdirAll(dir, 0o755)
+		os.WriteFile(filepath.Join(dir, "good.txt"), good, 0o644)
+		os.WriteFile(filepath.Join(dir, "bad.txt"), bad[jb.bad], 0o644)
+		os.WriteFile(filepath.Join(dir, "bystander.dat"), []byte("do not touch"), 0o600)
+		if jb.stale {
+			os.WriteFile(filepath.Join(dir, "good.txt.vored"), bytes.Repeat([]byte("STALE-"), 40), 0o644)
+			os.WriteFile(filepath.Join(dir, "bad.txt.vored"), bytes.Repeat([]byte("STALE-"), 900), 0o644)
+		}
+		before := fsmon.Take(dir)
+		files := [][]string{{"good.txt", "bad.txt"}, {"bad.txt", "good.txt"}, {"bad.txt"}}[jb.order]
+		var paths []string
+		for _, f := range files {
+			paths = append(paths, filepath.Join(dir, f))
+		}
+		c := wire.Case{Op: "runfiles", Src: []byte(src), Files: paths, Mode: jb.mode, StepBudget: 20_000_000}
+		return &drv.Item{Case: c, Check: func(res *wire.Result) {
+			defer os.RemoveAll(dir)
+			if res.Died || res.Guard != "" {
+				crashOrGuard(r, res, &c, src, false)
+				return
+			}
+			if res.Compile == nil || !res.Compile.OK || len(res.Runs) < 1 {
+				r.Inconclusive("fixed program rejected: " + src)
+				return
+			}
+			fr := &res.Runs[0]
+			r.Eval(1)
+			if fr.Panic == nil {
+				r.Inconclusive("the failing transform did not fail (known finding K1 gone?): adjust c06Failing")
+				return
+			}
+			if !strings.Contains(fr.Panic.Msg, "divide by zero") {
+				r.Violate(&drv.Violation{Sig: "runfiles-panic:" + fr.Panic.Frame, Panic: fr.Panic.Msg, Frame: fr.Panic.Frame, Src: src, Case: &c, Detail: map[string]any{"mode": jb.mode}})
+				return
+			}
+			diff := fsmon.Diff(before, fsmon.Take(dir))
+			for _, ch := range diff {
+				okc := false
+				switch {
+				case jb.mode == "NEW" && ch.Path == "good.txt.vored", jb.mode == "OVERWRITE" && ch.Path == "good.txt":
+					got, _ := os.ReadFile(filepath.Join(dir, ch.Path))
+					okc = bytes.Equal(got, goodOut)
+				}
+				if !okc {
+					got, _ := os.ReadFile(filepath.Join(dir, ch.Path))
+					r.Violate(&drv.Violation{Sig: "failed-call-left-a-file-that-is-neither-untouched-nor-a-splice:" + jb.mode, Src: src, Case: &c,
+						Detail: map[string]any{"change": ch.String(), "all_changes": fmt.Sprint(diff), "mode": jb.mode, "files": files, "content_now": oneLineN(string(got), 80)}})
+					return
+				}
+			}
+			r.Count("failed_calls_whose_files_were_inspected", 1)
 		}}
 	})
 }
